@@ -159,7 +159,7 @@ def check_producers(repo, model: FsmModel, pm: ProviderModel, rep):
                     elif s.trail.index(unsets[0]) < s.trail.index(closes[0]):
                         d['problems'].add('dul_socket released before close()')
                 elif n == 18:
-                    ok = any(_is_timer_expired(c_) for c_ in conds)
+                    ok = any(_is_timer_expired(c_) for c_ in conds) or all(expiry_facts(conds, 'self.timer'))
                     if not ok:
                         d['problems'].add('EVT_18 appended without a positive expiry test of the ARTIM timer')
                 elif n == 19:
@@ -212,6 +212,25 @@ def _is_state_test(c, state, positive):
     return False
 
 
+def expiry_facts(conds, obj):
+    """(started, elapsed): does the path condition say that the start time of timer ``obj`` is set, and that the time since
+    then exceeds its limit?"""
+    st = '%s._start_time' % obj
+    started = any(x in ('+' + st, '+%s is not None' % st, '-%s is None' % st, '+bool(%s)' % st) for x in conds)
+    elapsed = False
+    for x in conds:
+        pol, e = parse_cond(x)
+        if e is not None and isinstance(e, ast.Compare) and len(e.ops) == 1 and 'time.time()' in ast.unparse(e) \
+                and ('%s._max_seconds' % obj) in ast.unparse(e) and st in ast.unparse(e):
+            op = e.ops[0]
+            left_is_elapsed = 'time.time()' in ast.unparse(e.left)
+            gt = isinstance(op, (ast.Gt, ast.GtE)) if left_is_elapsed else isinstance(op, (ast.Lt, ast.LtE))
+            lt = isinstance(op, (ast.Lt, ast.LtE)) if left_is_elapsed else isinstance(op, (ast.Gt, ast.GtE))
+            if (gt and pol) or (lt and not pol):
+                elapsed = True
+    return started, elapsed
+
+
 def _is_timer_expired(c):
     pol, e = parse_cond(c)
     if e is None:
@@ -241,17 +260,7 @@ def check_timer(repo, pm, rep):
     n_false = 0
     for s, how in finals:
         ret = s.ret
-        started = any(x in ('+self._start_time', '+self._start_time is not None', '-self._start_time is None') for x in s.conds)
-        elapsed = False
-        for x in s.conds:
-            pol, e = parse_cond(x)
-            if e is not None and isinstance(e, ast.Compare) and 'time.time()' in ast.unparse(e) and '_max_seconds' in ast.unparse(e):
-                op = e.ops[0]
-                left_is_elapsed = 'time.time()' in ast.unparse(e.left)
-                gt = isinstance(op, (ast.Gt, ast.GtE)) if left_is_elapsed else isinstance(op, (ast.Lt, ast.LtE))
-                lt = isinstance(op, (ast.Lt, ast.LtE)) if left_is_elapsed else isinstance(op, (ast.Gt, ast.GtE))
-                if (gt and pol) or (lt and not pol):
-                    elapsed = True
+        started, elapsed = expiry_facts(s.conds, 'self')
         if ret == 'False':
             n_false += 1
             if not (started and elapsed):
@@ -410,7 +419,13 @@ def check_loop_order(pm: ProviderModel, rep):
 
 def check_wire_order(pm: ProviderModel, rep):
     """G7: the event history the machine sees is the history on the wire."""
-    from .c03 import drain_order_problems
+    from .c03 import buffer_anchor, drain_order_problems
+    from ..srcmodel import AnalysisError
+    try:
+        buffer_anchor(pm.repo)
+    except AnalysisError as exc:
+        rep.undecided('C05.G7', str(exc))
+        return
     finals = pm.paths('_check_network')
     problems, n_app = drain_order_problems(finals)
     if n_app == 0:
